@@ -1,5 +1,5 @@
 /* C07 T-chk: work counters for one conversion.  Input: <fmt> <ext> <hex source>
-   Output: "<pair steps (hook H2)> <tokens allocated (hook H1)> <output length> <basic blocks>"
+   Output: "<pair steps (hook H2)> <tokens allocated (hook H1)> <output length> <basic blocks> <bytes handled inside libc>"
    basic blocks: in the "cov" build variant every object of the library is compiled with -fsanitize-coverage=trace-pc,
    which calls __sanitizer_cov_trace_pc() once per executed basic block; the count is the property's own cost measure
    ("executed basic blocks, not seconds").  0 in the other variants. */
@@ -12,6 +12,46 @@ void verif_token_pool_state(long * count, long * has_pool, long * slabs, long * 
 static unsigned long long verif_bb;
 __attribute__((no_sanitize_coverage)) void __sanitizer_cov_trace_pc(void) { verif_bb++; }
 
+/* work done inside the C library on behalf of the converter: in the "cov" variant the library is compiled with
+   -fno-builtin and this harness is linked with --wrap for the string and memory functions below; every call adds the
+   number of bytes it has to look at or move (for the scanning functions: up to the terminator they stop at).  Without
+   this a loop that moved into strcat / strlen / memmove would be invisible to the basic-block count. */
+#include <stdarg.h>
+static unsigned long long verif_libc_bytes;
+#define NOCOV __attribute__((no_sanitize_coverage))
+size_t __real_strlen(const char * s);
+char * __real_strcat(char * d, const char * s);
+char * __real_strncat(char * d, const char * s, size_t n);
+char * __real_strcpy(char * d, const char * s);
+char * __real_strncpy(char * d, const char * s, size_t n);
+void * __real_memcpy(void * d, const void * s, size_t n);
+void * __real_memmove(void * d, const void * s, size_t n);
+void * __real_memset(void * d, int c, size_t n);
+int __real_strcmp(const char * a, const char * b);
+int __real_strncmp(const char * a, const char * b, size_t n);
+int __real_memcmp(const void * a, const void * b, size_t n);
+char * __real_strstr(const char * h, const char * n);
+char * __real_strchr(const char * s, int c);
+char * __real_strrchr(const char * s, int c);
+char * __real_strdup(const char * s);
+int __real_vsnprintf(char * str, size_t size, const char * format, va_list ap);
+NOCOV size_t __wrap_strlen(const char * s) { size_t n = __real_strlen(s); verif_libc_bytes += n + 1; return n; }
+NOCOV char * __wrap_strcat(char * d, const char * s) { verif_libc_bytes += __real_strlen(d) + __real_strlen(s) + 1; return __real_strcat(d, s); }
+NOCOV char * __wrap_strncat(char * d, const char * s, size_t n) { size_t l = __real_strlen(s); verif_libc_bytes += __real_strlen(d) + (l < n ? l : n) + 1; return __real_strncat(d, s, n); }
+NOCOV char * __wrap_strcpy(char * d, const char * s) { verif_libc_bytes += __real_strlen(s) + 1; return __real_strcpy(d, s); }
+NOCOV char * __wrap_strncpy(char * d, const char * s, size_t n) { verif_libc_bytes += n; return __real_strncpy(d, s, n); }
+NOCOV void * __wrap_memcpy(void * d, const void * s, size_t n) { verif_libc_bytes += n; return __real_memcpy(d, s, n); }
+NOCOV void * __wrap_memmove(void * d, const void * s, size_t n) { verif_libc_bytes += n; return __real_memmove(d, s, n); }
+NOCOV void * __wrap_memset(void * d, int c, size_t n) { verif_libc_bytes += n; return __real_memset(d, c, n); }
+NOCOV int __wrap_strcmp(const char * a, const char * b) { size_t i = 0; while (a[i] && a[i] == b[i]) i++; verif_libc_bytes += i + 1; return __real_strcmp(a, b); }
+NOCOV int __wrap_strncmp(const char * a, const char * b, size_t n) { size_t i = 0; while (i < n && a[i] && a[i] == b[i]) i++; verif_libc_bytes += i + 1; return __real_strncmp(a, b, n); }
+NOCOV int __wrap_memcmp(const void * a, const void * b, size_t n) { verif_libc_bytes += n; return __real_memcmp(a, b, n); }
+NOCOV char * __wrap_strstr(const char * h, const char * n) { char * r = __real_strstr(h, n); verif_libc_bytes += (r ? (size_t)(r - h) : __real_strlen(h)) + 1; return r; }
+NOCOV char * __wrap_strchr(const char * s, int c) { char * r = __real_strchr(s, c); verif_libc_bytes += (r ? (size_t)(r - s) : __real_strlen(s)) + 1; return r; }
+NOCOV char * __wrap_strrchr(const char * s, int c) { verif_libc_bytes += __real_strlen(s) + 1; return __real_strrchr(s, c); }
+NOCOV char * __wrap_strdup(const char * s) { verif_libc_bytes += 2 * (__real_strlen(s) + 1); return __real_strdup(s); }
+NOCOV int __wrap_vsnprintf(char * str, size_t size, const char * format, va_list ap) { int r = __real_vsnprintf(str, size, format, ap); if (r > 0) verif_libc_bytes += (size_t) r; return r; }
+
 int main(void) {
 	char * line;
 	while ((line = h_readline(stdin))) {
@@ -20,12 +60,12 @@ int main(void) {
 		short fmt = (short) atoi(f[0]); unsigned long ext = strtoul(f[1], 0, 10);
 		size_t len; char * src = h_unhex(f[2], &len);
 		token_pool_init();
-		unsigned long before = verif_pair_steps; unsigned long long bb0 = verif_bb;
+		unsigned long before = verif_pair_steps; unsigned long long bb0 = verif_bb, lb0 = verif_libc_bytes;
 		char * out = mmd_string_convert(src, ext, fmt, 0);
 		long c, h, s, r; verif_token_pool_state(&c, &h, &s, &r);
 		long toks = (h && s > 0) ? s * 1024 - (r < 0 ? 0 : r) : 0;
-		unsigned long long bb = verif_bb - bb0;
-		printf("%lu %ld %lu %llu\n", verif_pair_steps - before, toks, out ? (unsigned long) strlen(out) : 0UL, bb); fflush(stdout);
+		unsigned long long bb = verif_bb - bb0, lb = verif_libc_bytes - lb0;
+		printf("%lu %ld %lu %llu %llu\n", verif_pair_steps - before, toks, out ? (unsigned long) __real_strlen(out) : 0UL, bb, lb); fflush(stdout);
 		free(out); free(src); free(line);
 		token_pool_drain(); token_pool_free();
 	}
